@@ -295,6 +295,10 @@ impl<T: Qcow2IoOps> Qcow2Dev<T> {
         {
             Some(to_kill) => {
                 log::warn!("add_rb_slice: cache eviction, slices {}", to_kill.len());
+
+                // may be called with the reftable locked, so flush_refcount()
+                // takes the two locks in the same order
+                let _flush_lock = self.refcount_flush_lock.lock().await;
                 self.flush_cache_entries(to_kill).await?;
 
                 // The slices are clean now, so no later refcount flush will
